@@ -51,7 +51,8 @@ TimingSeq ==
        <<>>,
        <<TL(0, TRUE, 400, 1, 100, 1), TL(2000, FALSE, -400, 2, 45, 2), TL(2410, FALSE, -25, 3, 5, 1), TL(3200, FALSE, -100, 1, 100, 7)>>,
        \* velocity multipliers beyond their clamp [0.1, 10]: -2000 asks for 0.05, -5 for 20
-       <<TL(0, TRUE, 400, 1, 100, 0), TL(2000, FALSE, -2000, 2, 60, 0), TL(2010, FALSE, -5, 3, 50, 0)>> >>
+       \* (and volumes beyond [0, 100]: 130 is read as 100, -20 as 0)
+       <<TL(0, TRUE, 400, 1, 100, 0), TL(2000, FALSE, -2000, 2, 130, 0), TL(2010, FALSE, -5, 3, -20, 0)>> >>
 \* (TimesSet = "tiny" is the every-change budget of the wide profile: fewer sections, breaks, modes and shapes)
 TimingChoices == IF TimesSet = "tiny" THEN {2, 4, 6, 7} ELSE 1..Len(TimingSeq)
 
@@ -70,7 +71,7 @@ ObjTimes == IF TimesSet \in {"small", "tiny"} THEN {0, 1000, 1005} ELSE {0, 1000
 Smp(hs, bank, abank, vol, cu, file) == [hs |-> hs, bank |-> bank, abank |-> abank, vol |-> vol, cu |-> cu, file |-> file]
 ObjSamples ==
     IF Profile = "wide"
-    THEN { Smp(2, 0, 3, 0, 0, FALSE), Smp(14, 2, 0, 0, 1, FALSE), Smp(5, 3, 1, 70, 2, FALSE), Smp(8, 2, 3, 0, 4, TRUE) }
+    THEN { Smp(2, 0, 3, 0, 0, FALSE), Smp(14, 2, 0, 0, 1, FALSE), Smp(5, 3, 1, 150, 2, FALSE), Smp(8, 2, 3, 0, 4, TRUE) }
          \cup (IF TimesSet = "tiny" THEN {} ELSE { Smp(0, 0, 0, 0, 0, FALSE), Smp(0, 0, 0, 35, 0, TRUE) })
     ELSE { Smp(0, 0, 0, 0, 0, FALSE), Smp(0, 3, 0, 25, 1, FALSE) }
 
